@@ -11,6 +11,9 @@ oracle pi K = pi with pi ∝ exp(log_p_one)).  Components are checked and report
   subtree-full/<proposal>       sample_tree including its random subtree choice
   sweep                         one iteration of run._run_main_sampler enumerated directly equals
                                 ((1-s) K_pg + s K_sub) K_dp K_prg built from the component matrices
+  sweep/stub-moves              run._run_main_sampler driven with four stand-in updates that are pi-invariant by
+                                construction (Metropolis swaps over random pairings of ALL states) on 4-5 data points:
+                                one sweep must leave pi invariant however the loop picks, orders or repeats its updates
 """
 import contextlib
 import io
@@ -30,7 +33,7 @@ SHRINK = False
 STRATIFIED = True
 RULE = (
     "Hypothesis draws (n, dims, grid, value regime, alpha, outlier prior, N, threshold); the move kind "
-    "(dp with/without outliers, prune-regraft, subtree inner/full x 3 proposals, sweep composition) is stratified over "
+    "(dp with/without outliers, prune-regraft, subtree inner/full x 3 proposals, sweep composition, sweep with stand-in moves on 243-2992 states) is stratified over "
     "shards. Per case all clone trees over the data are enumerated and the move's transition matrix is computed exactly "
     "over every random outcome. Non-trivial: some start tree has >= 2 reachable targets. Distinct: hash of the case."
 )
